@@ -275,6 +275,9 @@ class Pool:
     ábc = 8
     ABC = 9
     _Ab = 10
+    straße = 11
+    strasse_alt = 12
+    maße = 13
 
 
 Pool.a
@@ -284,6 +287,10 @@ Pool.__
 Pool.
 Pool.ab
 Pool.á
+Pool.straß
+Pool.strass
+Pool.maß
+Pool.STRA
 ab = Ab = _ab = abc = 0
 a
 A
